@@ -176,7 +176,20 @@ def run(case):
             box.append(slice(min(min(per[c][a]) for c in range(len(cubes))), max(max(per[c][a]) + 1 for c in range(len(cubes)))))
     # ---- points in the requested form
     if case["form"] == "values":
-        pts = [[None if m else v * u.Unit(un) for v, m, un in zip(world, isnone, units)] for world, isnone in zip(val_points, none_world)]
+        def as_value(v, un):
+            q = v * u.Unit(un)
+            if case["wseed"] % 3 == 2:
+                # the classes astropy builds on Quantity are accepted like Quantities: an Angle for an angle, a
+                # SpectralCoord for a wavelength - also when it is given as a frequency (FITS families: not exact anyway)
+                from astropy.coordinates import Angle, SpectralCoord
+                if q.unit.physical_type == "angle":
+                    q = Angle(q).to(u.arcmin)
+                elif q.unit.physical_type == "length" and q.value > 0:
+                    q = SpectralCoord(q)
+                    if not case["fam"].startswith("probe") and case["which"] in ("wcs", "default", "list"):
+                        q = q.to(u.THz)
+            return q
+        pts = [[None if m else as_value(v, un) for v, m, un in zip(world, isnone, units)] for world, isnone in zip(val_points, none_world)]
     else:
         hl = HighLevelWCSWrapper(ll)
         comps = [c[0] for c in ll.world_axis_object_components]
